@@ -157,6 +157,39 @@ func main() {
     fmt.Println(%d)
 }
 """ % (n, 800 + k)))
+    for k, n in enumerate([3, rng.randint(1, 9)]):
+        progs.append(("go-producer-close-range-%d" % n, """@extensions true
+import "fmt"
+
+func producer(c chan, n int) {
+    for i := 0; i < n; i = i + 1 {
+        c <- i * i
+    }
+    close(c)
+}
+
+func main() {
+    c := make(chan, 4)
+    go producer(c, %d)
+    sum := 0
+    for v := range c {
+        sum = sum + v
+    }
+    fmt.Println(sum)
+    d := make(chan, 2)
+    d <- 5
+    close(d)
+    try {
+        close(d)
+        fmt.Println(1)
+    } catch {
+        fmt.Println(2)
+    }
+    w := <-d
+    fmt.Println(w)
+    fmt.Println(%d)
+}
+""" % (n, 700 + k)))
     return progs
 
 
@@ -238,7 +271,7 @@ def run(ck):
             if sig is None:
                 names.append(n)
                 srcs.append(s)
-        for i in range(12 if quick else 300):
+        for i in range(8 if quick else 300):
             names.append("gen%d" % i)
             srcs.append(U.render(U.gen_program(ck.rng)))
 
